@@ -38,6 +38,26 @@ namespace Pistache::Http
         {
             using CT = std::common_type<time_point::duration, std::chrono::seconds>::type;
 
+            // No field of an HTTP date has more than four digits (fractional
+            // seconds aside). Longer numbers are refused here because the date
+            // library converts what it reads (e.g. the seconds of
+            // "11:51:31000000000") to ticks without a range check.
+            size_t digits = 0;
+            bool fraction = false;
+            for (const char c : s)
+            {
+                if (c >= '0' && c <= '9')
+                {
+                    if (!fraction && ++digits > 4)
+                        return false;
+                }
+                else
+                {
+                    fraction = (c == '.' && digits > 0);
+                    digits   = 0;
+                }
+            }
+
             std::istringstream in { s };
             date::fields<CT> fds {};
             fds.has_tod = true;
